@@ -59,7 +59,7 @@ class SArr(Model):
             if where is not None:
                 ctx.axiom(z3.Implies(z3.And(kz >= 0, kz < to_z3(length)), where(v)))
             return v
-        return SArr(length, fn, kind=kind)
+        return SArr(length, fn, kind=kind, dtype=('int' if sort == Z else None))
 
     def snapshot(self):
         """The array's content *now* (later in-place updates of the original are not seen)."""
@@ -175,7 +175,9 @@ class SArr(Model):
                     return x
                 xr = to_real(x)
                 return z3.If(xr >= 0, z3.ToInt(xr), -z3.ToInt(-xr))
-            if isinstance(val, SArr):
+            if isinstance(val, MaskedView):
+                val = val.map(trunc)
+            elif isinstance(val, SArr):
                 src = val
                 val = SArr(src.length, lambda k: trunc(src.at(k)), kind=src.kind)
             elif is_num(val):
@@ -327,7 +329,20 @@ class MaskedView(SArr):
         super().__init__(base.length, fn or base.fn, kind='ndarray')
 
     def same_mask(self, m):
-        return self.mask is m
+        if self.mask is m:
+            return True
+        # two masks computed separately from the same expression (a[~c] = f(b[~c])): the same mask if their elements are
+        # the same term at a generic position
+        try:
+            if isinstance(m, SArr) and self.mask.same_len(m):
+                k = z3.Int('mask_probe_position')
+                a, b = _as_bool(self.mask.at(k)), _as_bool(m.at(k))
+                if isinstance(a, bool) or isinstance(b, bool):
+                    return a is b
+                return z3.eq(z3.simplify(a), z3.simplify(b))
+        except Exception:   # noqa
+            pass
+        return False
 
     def map(self, f):
         g = self.fn
@@ -336,7 +351,7 @@ class MaskedView(SArr):
     def py_binop(self, I, op, other, reflected):
         g = self.fn
         if isinstance(other, MaskedView):
-            if other.mask is not self.mask:
+            if other.mask is not self.mask and not self.same_mask(other.mask):
                 raise Unsupported('operation on views through different masks')
             o = other.fn
             if reflected:
